@@ -102,6 +102,50 @@ def engine_contract_violations(path):
     return bad
 
 
+def frame_guard_violations(path):
+    """Dead-guard discipline (invariant I3 of Stack/FramesProofs.v: a clause given under the id of a live frame belongs to
+    that frame): in the trace every clause handed over while frame index i is processed (`ot` events after the `pp` event of
+    frame i) carries the activation literal `.frame<id>` of that frame only; the base frame carries none; two live frames
+    never share a guard.  Returns a list of descriptions."""
+    import re
+    bad, G, cur, inst = [], {}, None, None
+    for line in open(path, errors="replace"):
+        if line.startswith("(pp "):
+            m = re.match(r"\(pp (\S+) (\d+) ", line)
+            if inst is None:
+                inst = m.group(1)
+            if m.group(1) == inst:
+                cur = int(m.group(2))
+                G.setdefault(cur, set())
+        elif line.startswith("(ot ") and cur is not None:
+            for g in re.findall(r"(?<![\w.])\.frame(\d+)\b", line):
+                G[cur].add(int(g))
+        elif line.startswith("(ms "):
+            m = re.match(r"\(ms (\S+) (\w+) \(frames (\d+)\)", line)
+            if inst is None:
+                inst = m.group(1)
+            if m.group(1) != inst:
+                continue
+            n = int(m.group(3))
+            if m.group(2) == "pop":
+                for i in [i for i in G if i >= n]:
+                    del G[i]
+                cur = None
+            if m.group(2) == "check":
+                live = {i: g for i, g in G.items() if i < n}
+                if live.get(0):
+                    bad.append("base frame clauses carry the guard(s) %s" % sorted(live[0]))
+                for i, g in live.items():
+                    if len(g) > 1:
+                        bad.append("clauses of frame %d carry several guards %s" % (i, sorted(g)))
+                idx = sorted(live)
+                for a in range(len(idx)):
+                    for b in range(a + 1, len(idx)):
+                        if live[idx[a]] & live[idx[b]]:
+                            bad.append("live frames %d and %d share the guard %s" % (idx[a], idx[b], sorted(live[idx[a]] & live[idx[b]])))
+    return bad
+
+
 def strip_queries(text):
     return "\n".join(l for l in text.split("\n") if not l.startswith(("(get-model", "(get-value", "(get-assignment"))) + "\n"
 
@@ -119,6 +163,7 @@ def one(args):
     if os.path.exists(tr):
         ops, states = ops_from_trace(tr)
         contract = engine_contract_violations(tr)
+        contract += [(0, -1, g) for g in frame_guard_violations(tr)]
         os.remove(tr)
     # fresh runs of each check on the flattened active assertions
     ans = answercheck.answers_of(text, res, out) if rc in (0, 1) else None
@@ -164,6 +209,9 @@ def run(ctx):
     for r, ml in zip(keep, mlines):
         text, meta, rc, out, ops, states, ans, fresh, out3, contract = r
         for (kk, cfr, idx) in contract:
+            if cfr == -1:
+                ctx.tie_broken("frame-guard-discipline", str(idx), dict(script=text))
+                continue
             ctx.tie_broken("engine-contract:conflict-frame", "check %d: reported conflict frame %d but the final conflict uses the activation literal of frame %d" % (kk, cfr, idx),
                            dict(script=text))
         mstates = [x for x in ml.split(";") if x]
